@@ -273,6 +273,10 @@ def run(ctx, bt):
                         spec_mutator=levered_hold, corr_name="step[C16]")
     from ..runs_run import run_steps_protocol
     run_steps_protocol(ctx, bt, ctx.scale(25, 500), FOOT_FIELDS, "run-steps[C16]:leveraged-programs", make_spec=gen_spec)
+    from .. import whole_run as W
+    # complete levered backtests executed end to end by the model (liquidation and the terminal stretch included)
+    W.whole_run_protocol(ctx, bt, ctx.scale(30, 500), "whole-run[C16]:levered-programs",
+                         make_spec=lambda rng: W.gen_spec(rng, lev=True, crash=rng.random() < 0.8))
     from ..runs_run import run_days_protocol
     # the loop body of Backtest.run (and of shadow copies): does the model take the same run / no-run decision, day by day
     run_days_protocol(ctx, bt, ctx.scale(25, 500), None, "btday[C16]:leveraged-programs", make_spec=gen_spec)
